@@ -6,6 +6,7 @@ import Flowjaxv.Proofs.LogDet
 import Flowjaxv.Proofs.NetLawful
 import Flowjaxv.Proofs.Flows
 import Flowjaxv.Proofs.JaxTransforms
+import Flowjaxv.Proofs.BnafGen
 /-!
 # C01 — every bijection is invertible: inverse undoes transform, both ways
 
@@ -596,5 +597,71 @@ theorem gen_vmap_lawful {κ : Type} [Inhabited κ] (v : JaxTr.Vmap κ ℝ) (cs :
 
 end JaxTransformsGen
 
+/-! ## ===== BEGIN BnafGen (g15): the statements on the `BlockAutoregressiveNetwork` GENERATED from the source =====
+
+`Gen/BnafGen.lean` is re-translated from `/repo/flowjax/bijections/block_autoregressive_network.py` on every run; `Proofs/BnafGen.lean`
+proves it equal to the hand model.  `BnafGenPf.netOf A act dim bd Ls ljf condLinear inverter` is `unwrap(self)` of a network with
+the layers `Ls`, ANY log-Jacobian closures `ljf` returning `L.logJac` on their own layer, activation methods `act` / `A`, any
+inverter; `condition : Option (List ℝ)` is what the method receives (`hc`: a condition is passed exactly when there is a
+`cond_linear` — what `_unwrap_check_and_cast` and the constructor guarantee). -/
+section BnafGen
+open Masks MasksPf BnafGenPf
+
+/-- **`bnaf_triangular` on the GENERATED code**: the generated `transform` never fails and is a map `F` for which the function the
+inverter scans over, `x ↦ F x - y`, is `Bisection.Triangular` (output `i` depends on `x_0 … x_i` only and strictly increases in
+`x_i`) — strictly increasing activation, all well-shaped weights, every depth, `block_dim ≥ 1`, condition, target. -/
+theorem gen_bnaf_triangular (A : ℝ → ℝ × ℝ) (act : ℝ → ℝ) (hact : StrictMono act) {dim depth bd : Nat} {Ls : List (BnafLayer ℝ)}
+    {condLinear : Option (List (List ℝ))} (hok : NetLawful.BnafOK dim depth bd Ls condLinear)
+    (ljf : BnafLayer ℝ → Bw.Linear ℝ → Bw.Blocks ℝ) (inverter : List ℝ → Option (List ℝ) → List ℝ)
+    (condition : Option (List ℝ)) (hc : condition.isSome = condLinear.isSome) (y : List ℝ) (hy : y.length = dim) :
+    ∃ F : List ℝ → List ℝ,
+      (∀ x, GenBnaf.transform (netOf A act dim bd Ls ljf condLinear inverter) x condition = some (F x)) ∧
+      Bisection.Triangular (fun x => List.zipWith (· - ·) (F x) y) dim :=
+  ⟨fun x => bnafTransform act Ls condLinear x (condition.getD []), fun x =>
+    BnafGenPf.gen_bnaf_transform_eq_model A act dim bd Ls (bnafOK_ne_nil hok) ljf condLinear inverter x condition hc,
+    bnaf_triangular act hact hok (condition.getD []) y hy⟩
+
+/-- **`bnaf_injective` on the GENERATED code**: two inputs of length `dim` with the same generated `transform` are equal. -/
+theorem gen_bnaf_injective (A : ℝ → ℝ × ℝ) (act : ℝ → ℝ) (hact : StrictMono act) {dim depth bd : Nat} {Ls : List (BnafLayer ℝ)}
+    {condLinear : Option (List (List ℝ))} (hok : NetLawful.BnafOK dim depth bd Ls condLinear)
+    (ljf : BnafLayer ℝ → Bw.Linear ℝ → Bw.Blocks ℝ) (inverter : List ℝ → Option (List ℝ) → List ℝ)
+    (condition : Option (List ℝ)) (hc : condition.isSome = condLinear.isSome) (x x' : List ℝ)
+    (hx : x.length = dim) (hx' : x'.length = dim)
+    (h : GenBnaf.transform (netOf A act dim bd Ls ljf condLinear inverter) x condition
+       = GenBnaf.transform (netOf A act dim bd Ls ljf condLinear inverter) x' condition) : x = x' := by
+  rw [BnafGenPf.gen_bnaf_transform_eq_model A act dim bd Ls (bnafOK_ne_nil hok) ljf condLinear inverter x condition hc,
+    BnafGenPf.gen_bnaf_transform_eq_model A act dim bd Ls (bnafOK_ne_nil hok) ljf condLinear inverter x' condition hc] at h
+  exact bnaf_injective act hact hok (condition.getD []) x x' hx hx' (Option.some.inj h)
+
+/-- the generated `inverse` hands `(y, condition)` to the inverter; composed with the generated `transform` of an image it is
+the identity whenever the inverter returns a preimage (`bnaf_injective`: THE preimage). -/
+theorem gen_bnaf_inverse_of_exact (A : ℝ → ℝ × ℝ) (act : ℝ → ℝ) (hact : StrictMono act) {dim depth bd : Nat}
+    {Ls : List (BnafLayer ℝ)} {condLinear : Option (List (List ℝ))} (hok : NetLawful.BnafOK dim depth bd Ls condLinear)
+    (ljf : BnafLayer ℝ → Bw.Linear ℝ → Bw.Blocks ℝ) (inverter : List ℝ → Option (List ℝ) → List ℝ)
+    (condition : Option (List ℝ)) (hc : condition.isSome = condLinear.isSome) (x y : List ℝ) (hx : x.length = dim)
+    (hy : GenBnaf.transform (netOf A act dim bd Ls ljf condLinear inverter) x condition = some y)
+    (hlen : (inverter y condition).length = dim)
+    (hinv : GenBnaf.transform (netOf A act dim bd Ls ljf condLinear inverter) (inverter y condition) condition = some y) :
+    GenBnaf.inverse (netOf A act dim bd Ls ljf condLinear inverter) y condition = x :=
+  gen_bnaf_injective A act hact hok ljf inverter condition hc _ _ hlen hx (hinv.trans hy.symm)
+
+/-- non-vacuity, by evaluating the GENERATED code on a concrete conditional network (`dim = 2`, one hidden layer,
+`block_dim = 1`, weights given unwrapped, activation `z ↦ 2z`): the condition term enters after the first layer only, output `0`
+ignores `x₁`, a condition without `cond_linear` fails the `assert` and a network without layers has no `self.layers[-1]`. -/
+theorem gen_bnaf_instance (cl : Option (Bw.CondLinear ℝ)) (ls : List (Bw.Linear ℝ × (Bw.Linear ℝ → Bw.Blocks ℝ)))
+    (hls : ls = [(⟨[[2, 0], [-3, 1]], [0, 1]⟩, fun _ => []), (⟨[[1, 0], [4, 3]], [1, 0]⟩, fun _ => [])]) :
+    let N (cl : Option (Bw.CondLinear ℝ)) (ls : List (Bw.Linear ℝ × (Bw.Linear ℝ → Bw.Blocks ℝ))) : Bw.Net ℝ :=
+      { shape := [2], block_dim := 1, cond_linear := cl, layers := ls,
+        activation := ⟨fun z => z + z, fun z => (z + z, 0)⟩, inverter := fun y _ => y }
+    GenBnaf.transform (N (some ⟨[[1], [-1]]⟩) ls) [1, 2] (some [5]) = some [15, 26] ∧
+    GenBnaf.transform (N (some ⟨[[1], [-1]]⟩) ls) [1, 7] (some [5]) = some [15, 56] ∧
+    GenBnaf.transform (N (some ⟨[[1], [-1]]⟩) ls) [1, 2] none = some [5, 16] ∧
+    GenBnaf.transform (N none ls) [1, 2] (some [5]) = none ∧
+    GenBnaf.transform (N none []) [1, 2] none = none := by
+  subst hls
+  norm_num [GenBnaf.transform, Bw.enumerate, Bw.Linear.call, Bw.CondLinear.call, Bw.addV, Jnp.dot, Jnp.sum, List.zipIdx]
+
+end BnafGen
+/-! ## ===== END BnafGen ===== -/
 
 end C01
